@@ -35,6 +35,7 @@ type encCase struct {
 	armored bool
 	logN    int // work factor for S parties
 	seg     []int
+	via     string // hand-over mode (ax.Vias); "" = Write calls per seg
 }
 
 type produced struct {
@@ -136,10 +137,20 @@ func encryptSide(r *mon.Run) {
 			c := encCase{list: l, length: n, armored: (li+k)%2 == 0}
 			if k == 1 {
 				c.seg = randomSeg(rng, n)
+			} else {
+				c.via = ax.Vias[(li+k)%len(ax.Vias)]
 			}
 			cases = append(cases, c)
 		}
 	}
+	// chunk-multiple lengths through every hand-over mode, and payloads whose
+	// chunk counter passes one byte (> 256 chunks): a symmetric slip in the
+	// counter only shows against the independent reference
+	for vi, via := range ax.Vias {
+		cases = append(cases, encCase{list: []string{"X1"}, length: 65536 * (1 + vi%3), armored: vi%2 == 0, via: via})
+	}
+	cases = append(cases, encCase{list: []string{"X1"}, length: 300*65536 + 5, via: ax.ViaWrite},
+		encCase{list: []string{"E1"}, length: 257 * 65536, via: ax.ViaCopyPlain})
 	// passphrase files at every work factor 1..12 (+ the default 18 in thorough)
 	for w := 1; w <= 12; w++ {
 		cases = append(cases, encCase{list: []string{"S1"}, length: w * 13, armored: w%2 == 0, logN: w})
@@ -168,7 +179,11 @@ func encryptSide(r *mon.Run) {
 					err = fmt.Errorf("PANIC: %v", p)
 				}
 			}()
-			file, err = ax.EncryptSeg(pt, c.armored, c.seg, keys.Recipients(partiesOf(c))...)
+			if c.via != "" {
+				file, err = ax.EncryptVia(pt, c.armored, c.via, keys.Recipients(partiesOf(c))...)
+			} else {
+				file, err = ax.EncryptSeg(pt, c.armored, c.seg, keys.Recipients(partiesOf(c))...)
+			}
 		}()
 		out[i] = &produced{c: c, pt: pt, file: file, draws: t.Since(mark), err: err}
 		if i%256 == 0 {
@@ -183,7 +198,7 @@ func encryptSide(r *mon.Run) {
 	mon.Par(len(out), func(i int) {
 		p := out[i]
 		c := p.c
-		name := fmt.Sprintf("list=%s len=%d armor=%v logN=%d seg=%v", strings.Join(c.list, ","), c.length, c.armored, c.logN, len(c.seg) > 0)
+		name := fmt.Sprintf("list=%s len=%d armor=%v logN=%d seg=%v via=%s", strings.Join(c.list, ","), c.length, c.armored, c.logN, len(c.seg) > 0, c.via)
 		replay := map[string]any{"list": c.list, "len": c.length, "armor": c.armored, "logN": c.logN, "seg": c.seg, "case_index": i}
 		r.Eval(1)
 		if p.err != nil {
@@ -422,6 +437,8 @@ func referenceFilesSide(r *mon.Run) {
 	for w := 1; w <= 12; w++ {
 		cases = append(cases, rc{[]string{fmt.Sprintf("S%d", 1+w%2)}, w * 7, w % 3})
 	}
+	// more than 256 chunks, written by the reference
+	cases = append(cases, rc{[]string{"X1"}, 300*65536 + 5, 0}, rc{[]string{"E2"}, 257 * 65536, 1})
 	mon.Par(len(cases), func(i int) {
 		c := cases[i]
 		crng := mon.NewRNG(r.Seed, fmt.Sprintf("ref-file-%d", i))
